@@ -37,8 +37,42 @@ ASSUMPTIONS = ["E, K, n > 0, -1 < nu < 1/2 (enforced by the constructor), positi
 
 
 def run(ctx):
-    for r in (_hooke, _ramberg, _newton, _true):
+    for r in (_purity, _hooke, _ramberg, _newton, _true):
         ctx.attempt(r)
+
+
+def _purity(ctx):
+    """R-C16-10: the material laws are functions of their arguments - no method of the Hooke, Ramberg-Osgood and true
+    stress/strain modules writes into an argument (item/attribute stores, augmented assignment, out=, inplace=True) through any
+    alias (np.asarray views, tuples, comprehensions, helper returns).  A round trip evaluated twice on the same arrays would
+    otherwise differ."""
+    from ..effects import Effects
+    prog = ctx.prog
+    ctx.rule("R-C16-10", floor=20, what="no law method writes into its arguments through any alias")
+    eff = Effects(prog)
+    mods = ("pylife.materiallaws.hookeslaw", "pylife.materiallaws.rambgood", "pylife.materiallaws.true_stress_strain")
+    n = 0
+    for key, fi in sorted(prog.functions.items()):
+        if fi.module.name not in mods or fi.parent is not None:
+            continue
+        summ = eff.summary(fi)
+        if summ is None:
+            raise AnalysisError("no effect summary for %s" % key)
+        n += 1
+        bad = [e for e in summ["effects"] if e.origin[0] in ("param", "elem")]
+        if not bad:
+            ctx.holds(fi, fi.node, "%s: no write reaches an argument" % fi.name)
+        for e in bad:
+            node = fi.node
+            for st in walk_function(fi.node):
+                if isinstance(st, ast.stmt) and getattr(st, "lineno", None) == e.lineno:
+                    node = st
+                    break
+            ctx.violated(fi, node, "%s writes into its argument %s (%s through a %s): the caller's data changes, a second "
+                         "evaluation on the same arrays gives another result" % (fi.name, e.origin[1], e.kind, e.mode),
+                         text="%s %s" % (e.kind, e.origin[1]))
+    if n == 0:
+        raise AnalysisError("no law methods found")
 
 
 def _eq(ctx, fi, node, rule, what, a, b):
@@ -285,7 +319,7 @@ def _ramberg(ctx):
 
 def _newton(ctx):
     prog = ctx.prog
-    ctx.rule("R-C16-8", floor=4, what="Newton inversion is wired to strain, its derivative, start value and sign")
+    ctx.rule("R-C16-8", floor=5, what="Newton inversion is wired to strain, its derivative, start value and sign")
     ci = prog.cls(RO)
     f = prog.lookup_method(ci, "stress")
     nested = {n.name: n for n in f.node.body if isinstance(n, ast.FunctionDef)}
@@ -336,6 +370,16 @@ def _newton(ctx):
         ctx.holds(f, r, "result = |stress| * sign(strain): odd inverse")
     else:
         ctx.violated(f, r, "result is not multiplied by the sign of the strain", text="sign")
+    # the other factor is the solver's result itself: one definition, the newton call
+    other = [n for n in (v.left, v.right) if isinstance(n, ast.Name) and env.get(n.id) != "sign"] if isinstance(v, ast.BinOp) else []
+    defs = [s for s in walk_function(f.node) if isinstance(s, (ast.Assign, ast.AugAssign)) and other and
+            any(isinstance(t, ast.Name) and t.id == other[0].id for t in (s.targets if isinstance(s, ast.Assign) else [s.target]))]
+    if other and len(defs) == 1 and isinstance(defs[0], ast.Assign) and defs[0].value is c[0]:
+        ctx.holds(f, defs[0], "the returned magnitude is the solver's root, not post-processed")
+    else:
+        ctx.violated(f, defs[-1] if defs else r, "the magnitude returned by stress() is not the unmodified result of the Newton "
+                     "solve (%d definitions of %s): values are clipped / replaced after the solve, so stress(strain(s)) != s for "
+                     "the affected range" % (len(defs), other[0].id if other else "?"), text="post-processed root")
 
 
 def _true(ctx):
@@ -366,8 +410,43 @@ def _assign(f, name):
     return [s for s in ast.walk(f) if isinstance(s, ast.Assign) and isinstance(s.targets[0], ast.Name) and s.targets[0].id == name][0]
 
 
+_HLP = "src/pylife/materiallaws/hookeslaw.py"
+_ROP = "src/pylife/materiallaws/rambgood.py"
+
+
 def variants():
     out = []
+
+    def shear_in_place(tree):
+        f = find_func(tree, "HookesLaw3d.stress")
+        for i, st in enumerate(f.body):
+            if isinstance(st, ast.Assign) and isinstance(st.targets[0], ast.Name) and st.targets[0].id == "s12":
+                f.body[i] = parse_stmt("s12 = np.multiply(g12, self._G, out=g12)")
+                return True
+        return False
+    out.append(witness("3D shear stress computed in place of the caller's array", _HLP, shear_in_place, "R-C16-10"))
+
+    def aug_param(tree):
+        f = find_func(tree, "HookesLaw1d.stress")
+        f.body.insert(-1, parse_stmt("%s *= 1.0" % f.args.args[1].arg))
+        return True
+    out.append(witness("1D law scales its argument in place", _HLP, aug_param, "R-C16-10"))
+
+    def clip_small(tree):
+        f = find_func(tree, "RambergOsgood.stress")
+        r = [i for i, st in enumerate(f.body) if isinstance(st, ast.Return)][-1]
+        f.body.insert(r, parse_stmt("abs_stress = np.where(abs_strain < tol, 0.0, abs_stress)"))
+        return True
+    out.append(witness("stress below the solver tolerance set to zero", _ROP, clip_small, "R-C16-8"))
+
+    def shear_mult_func(tree):
+        f = find_func(tree, "HookesLaw3d.stress")
+        for i, st in enumerate(f.body):
+            if isinstance(st, ast.Assign) and isinstance(st.targets[0], ast.Name) and st.targets[0].id == "s12":
+                f.body[i] = parse_stmt("s12 = np.multiply(self._G, g12)")
+                return True
+        return False
+    out.append(twin("3D shear stress via np.multiply without out=", _HLP, shear_mult_func))
 
     def factor2(tree):
         f = find_func(tree, "HookesLaw3d.stress")
